@@ -15,6 +15,8 @@ type sampler struct {
 	nodes int
 	hs    []*Expr // enclosing recovery operators
 	done  []*Expr // recovery operators whose guarded expression was already sampled
+
+	maxNodes, maxOut, maxDepth int // size limits of one sample (lifted for big rules)
 }
 
 func (s *sampler) intn(lo, hi int, l string) int { return lo + U(s.t, hi-lo+1, l) }
@@ -86,7 +88,7 @@ func (s *sampler) classPick(e *Expr) rune {
 
 func (s *sampler) walk(e *Expr, depth int) {
 	s.nodes++
-	if s.nodes > 400 || len(s.out) > 64 {
+	if s.nodes > s.maxNodes || len(s.out) > s.maxOut {
 		return
 	}
 	switch e.K {
@@ -102,7 +104,7 @@ func (s *sampler) walk(e *Expr, depth int) {
 	case KAny:
 		s.out = utf8.AppendRune(s.out, s.rune_())
 	case KRef:
-		if depth > 12 {
+		if depth > s.maxDepth {
 			return
 		}
 		if r := s.g.Rule(e.Name); r != nil {
@@ -228,9 +230,13 @@ func (s *sampler) walkLR(r *Rule, depth int) {
 // SampleInput draws an input for an entry rule: a derivation sample with 0-3 edits
 // (60%), a short random string (25%) or a boundary string (15%). MaxLen bounds the size.
 func SampleInput(t *rapid.T, g *Grammar, entry string, alphabet []rune, maxLen int) []byte {
-	s := &sampler{t: t, g: g, alpha: alphabet}
+	s := &sampler{t: t, g: g, alpha: alphabet, maxNodes: 400, maxOut: 64, maxDepth: 12}
 	mode := s.intn(0, 99, "inputmode")
 	var out []byte
+	if r := g.Rule(entry); r != nil && r.Big != "" && mode < 90 {
+		s.sampleBig(r)
+		return s.out
+	}
 	switch {
 	case mode < 75:
 		r := g.Rule(entry)
